@@ -34,6 +34,15 @@ EDITS = [
      "            sqrt_w = weights**0.5\n            y = sp.to_device(sqrt_w * y, device=device)\n        else:\n            y = sp.to_device(y, device=device)\n\n        A = linop.Sense(\n            mps,\n            coord=coord,\n            weights=weights,\n            tseg=tseg,", "SenseRecon: sqrt(w) in a local, commuted product"),
     (["C09"], "sigpy/util.py", "        ishift = [max(i // 2 - o // 2, 0) for i, o in zip(ishape1, oshape1)]", "        ishift = [max((i // 2) - (o // 2), 0) for i, o in zip(ishape1, oshape1)]", "resize: parenthesised"),
     (["C12"], "sigpy/alg.py", "            self.alpha = self.rzold / pAp\n            util.axpy(self.x, self.alpha, self.p)", "            step = self.rzold / pAp\n            self.alpha = step\n            util.axpy(self.x, step, self.p)", "CG: step in a local"),
+    # ---- edits aimed at the obligations added after the seeding rounds
+    (["C15"], "sigpy/alg.py", "        return self.iter >= self.max_iter or self.stop", "        budget_used = self.iter >= self.max_iter\n        return budget_used or self.stop", "SDMM._done: named sub-expression"),
+    (["C15"], "sigpy/alg.py", "    def _done(self):\n        return (self.iter >= self.max_iter) or self.resid <= self.tol", "    def _done(self):\n        return self.resid <= self.tol or (self.iter >= self.max_iter)", "GradientMethod._done: commuted disjunction"),
+    (["C02", "C01"], "sigpy/linop.py", "            input = xp.conj(input)\n\n        output = self.A(input)", "            conj_input = xp.conj(input)\n\n        output = self.A(conj_input)", "Conj: conjugated input in a local"),
+    (["C08"], "sigpy/conv.py", "                output_kj[slc] = output[k, j]\n                data[k, i] += signal.correlate(\n                    output_kj, filt[j, i], mode=adjoint_mode\n                )",
+     "                output_kj[slc] = output[k, j]\n                contribution = signal.correlate(\n                    output_kj, filt[j, i], mode=adjoint_mode\n                )\n                data[k, i] += contribution", "data adjoint: contribution in a local"),
+    (["C17"], "sigpy/mri/app.py", "                        xp.sum(xp.abs(x) ** 2, axis=-2, keepdims=True) ** 0.5", "                        xp.sqrt(xp.sum(xp.abs(x) ** 2, axis=-2, keepdims=True))", "ESPIRiT normalize: sqrt() instead of ** 0.5"),
+    (["C18"], "sigpy/mri/samp.py", "        int(ny / 2 - calib[-2] / 2) : int(ny / 2 + calib[-2] / 2),", "        int((ny - calib[-2]) / 2) : int((ny + calib[-2]) / 2),", "_poisson: calibration rows as (ny -/+ c)/2"),
+    (["C10"], "sigpy/wavelet.py", "    input = pywt.array_to_coeffs(input, coeff_slices, output_format=\"wavedecn\")\n    output = pywt.waverecn(input, wave_name, mode=\"zero\", axes=axes)", "    coeffs = pywt.array_to_coeffs(input, coeff_slices, output_format=\"wavedecn\")\n    output = pywt.waverecn(coeffs, wave_name, mode=\"zero\", axes=axes)", "iwt: coefficients in their own local"),
 ]
 
 
